@@ -25,7 +25,7 @@ GEN_DIR = os.path.join(LEAN_DIR, "FimVerif", "Generated")
 EVIDENCE_DIR = os.path.join(VERIF, "evidence")
 REPLAY_DIR = os.path.join(VERIF, "replays")
 CORPUS_DIR = os.path.join(VERIF, "corpus")
-KNOWN_FILE = os.path.join(VERIF, "known_findings.json")
+KNOWN_DIR = os.path.join(VERIF, "known_findings")
 ALLOWED_AXIOMS = {"propext", "Classical.choice", "Quot.sound"}
 FORBIDDEN_RE = re.compile(
     r"\bsorry\b|\badmit\b|^\s*axiom\s|native_decide|bv_decide|implemented_by|\bunsafe\s|maxHeartbeats\s+0\b")
@@ -214,17 +214,29 @@ def strip_lean_comments(src):
     return "".join(out)
 
 
-def grep_forbidden():
+def module_closure(modules):
+    """Source files of `modules` and everything under FimVerif they import (transitively)."""
+    seen, todo = {}, list(modules)
+    while todo:
+        m = todo.pop()
+        if m in seen or not m.startswith("FimVerif"):
+            continue
+        path = os.path.join(LEAN_DIR, *m.split(".")) + ".lean"
+        if not os.path.exists(path):
+            continue
+        src = open(path).read()
+        seen[m] = path
+        todo.extend(re.findall(r"^\s*import\s+([\w\.]+)", src, re.M))
+    return seen
+
+
+def grep_forbidden(modules):
     hits = []
-    base = os.path.join(LEAN_DIR, "FimVerif")
-    for root, _, files in os.walk(base):
-        for fn in files:
-            if fn.endswith(".lean"):
-                p = os.path.join(root, fn)
-                body = strip_lean_comments(open(p).read())
-                for ln, line in enumerate(body.split("\n"), 1):
-                    if FORBIDDEN_RE.search(line):
-                        hits.append("%s:%d: %s" % (os.path.relpath(p, LEAN_DIR), ln, line.strip()[:120]))
+    for m, p in sorted(module_closure(modules).items()):
+        body = strip_lean_comments(open(p).read())
+        for ln, line in enumerate(body.split("\n"), 1):
+            if FORBIDDEN_RE.search(line):
+                hits.append("%s:%d: %s" % (os.path.relpath(p, LEAN_DIR), ln, line.strip()[:120]))
     return hits
 
 
@@ -252,12 +264,17 @@ class LeanDriver:
 # known findings
 
 
-def load_known():
-    try:
-        with open(KNOWN_FILE) as f:
-            return json.load(f).get("findings", [])
-    except FileNotFoundError:
-        return []
+def load_known(prop=None):
+    """known_findings/<Cxx>.json: {"findings":[{"property","signature","status":"known"|"fixed","commit"?,"what"}]}.
+    Committed, never written at run time."""
+    out = []
+    if not os.path.isdir(KNOWN_DIR):
+        return out
+    for fn in sorted(os.listdir(KNOWN_DIR)):
+        if fn.endswith(".json") and (prop is None or fn == prop + ".json"):
+            with open(os.path.join(KNOWN_DIR, fn)) as f:
+                out.extend(json.load(f).get("findings", []))
+    return out
 
 
 # --------------------------------------------------------------------------
@@ -370,7 +387,7 @@ def run_property(prop, tier, seed, replay=None):
             discharged = sum(1 for t in obligations if t in axioms and set(axioms[t]) <= ALLOWED_AXIOMS)
             if not aok:
                 broken.append(("audit", alog))
-            hits = grep_forbidden()
+            hits = grep_forbidden(list(mod.LEAN_MODULES) + ["FimVerif.Drivers." + prop])
             if hits:
                 broken.append(("forbidden", "\n".join(hits)))
             if ctx.thorough and getattr(mod, "LEANCHECKER", True):
